@@ -52,6 +52,17 @@ def step (_ : Unit) (fields : List String) (impl : String) : Unit × Reply :=
                 decide (p ≤ ticks + 1) && decide (ticks ≤ p + 2 + ticks / 3)
       ((), ⟨"accepted-by-model=" ++ boolStr ok, ok, true, ok, "-"⟩)
     | _, _ => ((), .bad)
+  | ["stale", i, lives] =>
+    -- a supervised client with a keepalive that ticks every few ms, through losses during which the server refuses
+    -- connections: one new session per loss, no connection beyond those, Stop makes Run return (C13's observation)
+    match i.toNat? with
+    | some i =>
+      let m := kvs impl
+      let n := (lives.splitOn ";").length
+      let ok := i > 0 && nat m "sessions" == n + 1 && nat m "post" == n + 1 && nat m "recv" == n + 1 &&
+        nat m "unexpected" == 0 && (m.lookup "stalled") == some "-" && (m.lookup "stop") == some "true"
+      ((), ⟨"accepted-by-model=" ++ boolStr ok, ok, true, ok, "-"⟩)
+    | none => ((), .bad)
   | ["cfginterval", _, ms] =>
     -- the interval the client will use is the configured one (30 s where none was given), on every transport
     match ms.toNat? with
